@@ -72,16 +72,31 @@ class FixedPointMult(Logic):
         b = self.addIn('b', b)
         r = self.addOut('r', r)
         
-        sa = self.wire('sa', a.getWidth()+b.getWidth())
-        sb = self.wire('sb', a.getWidth()+b.getWidth())
+        # position of the result window inside the product
+        low = af[2]+bf[2]-rf[2]
+        pad = 0
+        if (low < 0):
+            # the result has more fraction bits than the product, zeros are appended
+            pad = -low
+            low = 0
+        high = low + r.getWidth()
+        
+        # the (sign extended) product must cover the whole result window
+        wm = max(a.getWidth()+b.getWidth()+pad, high+1)
+        
+        sa = self.wire('sa', wm)
+        sb = self.wire('sb', wm)
         
         SignExtend(self, 'sa', a, sa)
         SignExtend(self, 'sb', b, sb)
                 
-        m = self.wire('m', a.getWidth()+b.getWidth())
+        m = self.wire('m', wm)
         Mul(self, 'm', sa, sb, m)
         
+        if (pad > 0):
+            mp = self.wire('mp', wm)
+            ShiftLeftConstant(self, 'mp', m, pad, mp)
+            m = mp
+        
         # Range(self, 'r', m, r.getWidth()+rf[2], rf[2], r)
-        low = af[2]+bf[2]-rf[2]
-        high = low + r.getWidth()
         Range(self, 'r', m, high, low, r)
